@@ -34,6 +34,9 @@ DaysBefore(mm, yy) == IF mm = 1 THEN 0 ELSE DaysBefore(mm - 1, yy) + DaysIn(mm -
 
 YearLen(yy) == IF Leap(yy) THEN 366 ELSE 365
 
+\* every century year of the four-digit range (for Calendar_centuries.cfg): the rule has period 400, nothing else
+CenturyYears == {yy \in 1..9999 : yy % 100 = 0} \cup {yy \in 1..9999 : yy % 1000 \in {1, 999}}
+
 Init == /\ y0 \in StartYears
         /\ y = y0 /\ m = 1 /\ d = 1 /\ doy = 1
 
